@@ -46,8 +46,12 @@ LEVEL_TEXT = {
     'C03': ("Machine-checked on the executable model of Property::setHelper: an equal value changes nothing and logs nothing; any other value notifies every "
             "about-to-change observer with (old, new) while get() = old, stores, then notifies every changed observer with the new value while get() = new, each "
             "once, in subscription order, and touches nothing else; set(), operator= and operator>> are the same call and bindings write through setHelper. "
-            "Custom equal_to specialisations and types without operator== are outside the Z-valued model. Tie: differential execution incl. observers that write "
-            "and assignment from a reference into another property.", '6/C03'),
+            "A second model (PropEq.v) states the protocol for ONE property under an ARBITRARY equality relation (any type, any boolean relation: operator==, a "
+            "specialised equal_to, never equal, non-reflexive like NaN): silent iff the relation says equal, otherwise every observer once in order with the "
+            "right get(), writes of the property's own value are ordinary writes, and an observer replaying the changed notifications holds the current value "
+            "after every operation sequence. Tie: differential execution of both models (network scripts incl. observers that write and assignment from a "
+            "reference into another property; equality scripts on Property<T> for int, a modulo-10 equal_to, double with NaN, a never-equal equal_to and a type "
+            "without operator==).", '6/C03'),
     'C06': ("Machine-checked in three layers. (1) Executable model: a change notification reaching an evaluator-driven binding only sets dirty flags; an "
             "assignment to an input whose subscribers are observers and evaluator-driven nodes changes no other property, runs no user function and notifies only "
             "the input's observers; an evaluation with nothing dirty runs nothing. (2) Abstract model of evaluator-driven bindings (PropAbsLazy.v): ONE "
